@@ -133,26 +133,23 @@ theorem c02_counterexample_for_ulint :
     (Wit.firstCycle Wit.forUlintCast).1 = some (.fault .TypeMismatch .forCoerceNegative) := by
   decide +kernel
 
-/-- **Counterexample (`ULINT as i64` in array subscripts).**  `ar : ARRAY[-2..2] OF DINT`,
-`u = 2^64 - 2`: the reference raises `indexOut` at `ar[u] := DINT#7`; the implementation casts the
-subscript to `-2`, writes `ar[-2]`, reads it back into `x` and completes the cycle. -/
-theorem c02_counterexample_index_ulint :
-    Spec.typed Wit.indexUlintCast = true ∧ Wit.indexUlintCast.accepted = true ∧
+/-- **Regression fact (ULINT subscript above `i64::MAX`, fixed in c336de3).**
+`ar : ARRAY[-2..2] OF DINT`, `u = 2^64 - 2`: the program is inside the guard, the reference raises
+`indexOut` at `ar[u] := DINT#7` and the implementation `IndexOutOfBounds`; `ar[-2]` is untouched. -/
+theorem c02_index_ulint_now_out_of_bounds :
+    Strict Wit.indexUlintCast = true ∧
     (Spec.cycle Wit.indexUlintCast 100 (Spec.initEnv Wit.indexUlintCast)).2 = some .indexOut ∧
-    (Wit.firstCycle Wit.indexUlintCast).1 = none ∧
-    lookup "ar[-2]" (Wit.firstCycle Wit.indexUlintCast).2 = some (.i .dint 7) ∧
-    lookup "x" (Wit.firstCycle Wit.indexUlintCast).2 = some (.i .dint 7) := by
+    (Wit.firstCycle Wit.indexUlintCast).1 = some (.fault .IndexOutOfBounds .indexBounds) ∧
+    lookup "ar[-2]" (Wit.firstCycle Wit.indexUlintCast).2 = some (.i .dint 0) := by
   decide +kernel
 
 /-- The repairs modelled by `Cfg` remove these disagreements (what the oracle uses to
 attribute a mismatch to a recorded finding): literal lowering to the checker's type, exact FOR
-bounds, exact subscripts. -/
+bounds. -/
 theorem c02_repairs_remove_the_counterexamples :
     reportAt { litSmallest := true } Wit.driftIntLiteral 100 (fun _ => []) 1 (Wit.init Wit.driftIntLiteral)
       = some (.fault .Overflow .narrow) ∧
-    (cycle { forExact := true } Wit.forUlintCast 100 (Wit.init Wit.forUlintCast)).2 = none ∧
-    (cycle { idxExact := true } Wit.indexUlintCast 100 (Wit.init Wit.indexUlintCast)).2
-      = some (.fault .IndexOutOfBounds .indexBounds) := by
+    (cycle { forExact := true } Wit.forUlintCast 100 (Wit.init Wit.forUlintCast)).2 = none := by
   decide +kernel
 
 end TrustVerif.StCore
